@@ -608,7 +608,7 @@ func (t *NilTaint) step(f *ssa.Function) {
 						t.changed = true
 					}
 				}
-				if o, ok := t.elemsN[rv]; ok {
+				if o, ok := t.elemsN[rv]; ok && !sliceValidatedBefore(rv, x) {
 					if t.retElemsN[f] == nil {
 						t.retElemsN[f] = map[int]string{}
 					}
